@@ -277,7 +277,14 @@ def _make_mesh(case, dim):
     perm = _perm(case["numbering"], zm.Nn)
     if case["map"] != "identity":
         zm = zm.mapped(A, b)
-        lib = None
+        if lib is not None and perm is None:
+            # a mesh made by the mesher (it owns boundary and point groups) is MOVED with the library's own calls: mirrored with
+            # Mesh.Symmetry, then sent to its place through the coordinate setter from the coordinates the mesh itself reports
+            S = np.diag([-1.0, 1.0, 1.0])
+            lib.Symmetry((0.0, 0.0, 0.0), (1.0, 0.0, 0.0))
+            lib.coord = lib.coord @ (A @ S).T + b
+        else:
+            lib = None
     if perm is not None:
         zm = zm.renumbered(perm)
         lib = None
